@@ -339,6 +339,26 @@ def mp_cases(draw):
     return spec
 
 
+@st.composite
+def lowfi_limited(draw):
+    """Low-fidelity assemblies whose own criterion limits the step: no flowing-gap limit, low flow, small
+    convection factor."""
+    sp = draw(gen.single_assembly(rings=(2, 4), ducts=(1, 2), n_steps=(4, 8), regimes=("low", "lam"),
+                                  gap_model=draw(st.sampled_from(["no_flow", "duct_average", "none"])),
+                                  dT=(1.0, 5.0), conv_approx=True))
+    a = sp["assemblies"]["A"]
+    if draw(st.booleans()):
+        a["use_low_fidelity_model"] = True
+        a["low_fidelity_model"] = draw(st.sampled_from(["simple", "6node"]))
+        a["convection_factor"] = draw(st.sampled_from([0.02, 0.05, 0.1, 0.3, 1.0, "calculate"]))
+    else:
+        r = {"model": draw(st.sampled_from(["simple", "6node"])), "vf_coolant": gen.r6(draw(gen.fl(0.15, 0.9))),
+             "convection_factor": draw(st.sampled_from([0.02, 0.05, 0.1, 0.3, 1.0])),
+             "z_lo_frac": 0.0, "z_hi_frac": 0.5}
+        a["AxialRegion"] = {"lower": r}
+    return sp
+
+
 def parts(tier):
     q = tier == "quick"
     return [
@@ -347,6 +367,7 @@ def parts(tier):
                                           conv_approx=True, regions=True, lowfi=True, dT=(1.0, 20.0),
                                           regimes=("low", "lam", "tra", "tur")),
              examples=96 if q else 3000),
+        Part("lowfi_operator", run_region_operator, strategy=lowfi_limited(), examples=64 if q else 1500),
         Part("gap_operator", run_gap_operator,
              strategy=gen.core_spec(core_rings=(1, 2) if q else (1, 3), rings=(2, 4), ducts=(1, 2),
                                     gap_models=("flow", "flow", "no_flow", "duct_average"), n_steps=(3, 6),
